@@ -73,7 +73,7 @@ def split_impl(line):
     fields = {}
     cut = len(w)
     for n, t in enumerate(w):
-        if "=" in t and t.split("=")[0] in ("nc", "finite", "table", "pop", "c", "ctable", "cnull"):
+        if "=" in t and t.split("=")[0] in ("nc", "finite", "table", "pop", "c", "ctable", "cnull", "retried"):
             cut = min(cut, n); k, v = t.split("=", 1); fields[k] = v
     return " ".join(w[:cut]), fields
 
@@ -148,6 +148,8 @@ def compare(ctx, cases, impl, model, stats):
                 report("cwrapper-table", replay, "splinetable_glamfit failed (%s) and changed the table" % iv)
             if fi.get("cnull") != "111":
                 report("cwrapper-null", replay, "splinetable_glamfit with a null handle returned 0: cnull=%s" % fi.get("cnull"))
+        if "retried" in fi:
+            ctx.note("case %d (%s) completed only on attempt %s after a %s timeout: nondeterministic hang, cf. C12 (lost wake-up in walk_descents, reached through nnls_normal_block3 for monotone fits)" % (n, case["tag"], fi["retried"], "60 s"))
         # ---- model / implementation correspondence ------------------------------------------------------------------
         ok = True
         if mv.startswith("fault") or mv in ("bad-input", "model-inconsistent", ""):
